@@ -85,7 +85,8 @@ func (c *cmp) diff(a, b reflect.Value, path string) *difference {
 				if !x.Equal(y) {
 					c.subsecLost++
 				}
-				if c.sameOffset && ox != oy {
+				// a TZD carries whole minutes: the offset is compared to that precision
+				if c.sameOffset && ox/60 != oy/60 {
 					return mk(path, "zone offset %d vs %d (%s vs %s)", ox, oy, x.Format(time.RFC3339Nano), y.Format(time.RFC3339Nano))
 				}
 				return nil
